@@ -96,7 +96,9 @@ deriving DecidableEq, Repr
 def trySet (s : St) : St :=
   if s.isSealing then s else { s with active := false, sealed := false }
 
-def step (s : St) : Label → Option St
+/-- `fx` = the code calls `indexWg.Done()` when `active.Append` returns an error (extracted fact
+`SV.Extracted.C07.appendErrorPath`; false for the code as first read, true once repaired) -/
+def step (fx : Bool) (s : St) : Label → Option St
   | .appendBegin =>
     if !s.fatal && s.isActive then
       some { s with indexWg := s.indexWg + 1, begun := s.begun + 1, pendW := s.pendW + 1 } else none
@@ -108,7 +110,9 @@ def step (s : St) : Label → Option St
                     suicidedWrites := if s.aSuicided then s.suicidedWrites + 1 else s.suicidedWrites }
     else none
   | .appendWriteErr =>
-    if !s.fatal && 0 < s.pendW then some { s with pendW := s.pendW - 1, failedW := s.failedW + 1 } else none
+    if !s.fatal && 0 < s.pendW && (!fx || 0 < s.indexWg) then
+      some { s with pendW := s.pendW - 1, failedW := s.failedW + 1, indexWg := if fx then s.indexWg - 1 else s.indexWg }
+    else none
   | .indexDone =>
     if !s.fatal && 0 < s.queued && 0 < s.indexWg then
       some { s with queued := s.queued - 1, indexed := s.indexed + 1, indexWg := s.indexWg - 1 } else none
@@ -165,32 +169,33 @@ def step (s : St) : Label → Option St
   | .dpRelease .empty => if !s.fatal then some s else none
 
 /-- run a list of labels; `none` when some step is not enabled -/
-def run : St → List Label → Option St
+def run (fx : Bool) : St → List Label → Option St
   | s, [] => some s
-  | s, l :: ls => match step s l with
-    | some s' => run s' ls
+  | s, l :: ls => match step fx s l with
+    | some s' => run fx s' ls
     | none => none
 
 /-- index of the first label that is not enabled (for the driver) -/
-def firstBad : St → List Label → Nat → Option Nat
+def firstBad (fx : Bool) : St → List Label → Nat → Option Nat
   | _, [], _ => none
-  | s, l :: ls, i => match step s l with
-    | some s' => firstBad s' ls (i + 1)
+  | s, l :: ls, i => match step fx s l with
+    | some s' => firstBad fx s' ls (i + 1)
     | none => some i
 
-def Reachable (s : St) : Prop := ∃ tr, run init tr = some s
+def Reachable (fx : Bool) (s : St) : Prop := ∃ tr, run fx init tr = some s
 
-theorem run_append (s : St) (a b : List Label) :
-    run s (a ++ b) = (run s a).bind (fun s' => run s' b) := by
+theorem run_append (fx : Bool) (s : St) (a b : List Label) :
+    run fx s (a ++ b) = (run fx s a).bind (fun s' => run fx s' b) := by
   induction a generalizing s with
   | nil => simp [run]
   | cons l ls ih =>
     simp only [List.cons_append, run]
-    cases step s l with
+    cases step fx s l with
     | none => simp
     | some s' => simpa using ih s'
 
-theorem reachable_step {s s' : St} {l : Label} (h : Reachable s) (hs : step s l = some s') : Reachable s' := by
+theorem reachable_step {fx : Bool} {s s' : St} {l : Label} (h : Reachable fx s) (hs : step fx s l = some s') :
+    Reachable fx s' := by
   obtain ⟨tr, htr⟩ := h
   refine ⟨tr ++ [l], ?_⟩
   rw [run_append, htr]
@@ -198,17 +203,17 @@ theorem reachable_step {s s' : St} {l : Label} (h : Reachable s) (hs : step s l 
 
 /-- induction principle: a predicate that holds initially and is preserved by every step holds on every
 reachable state -/
-theorem reachable_induct (P : St → Prop) (h0 : P init)
-    (hstep : ∀ s l s', P s → step s l = some s' → P s') : ∀ s, Reachable s → P s := by
+theorem reachable_induct (fx : Bool) (P : St → Prop) (h0 : P init)
+    (hstep : ∀ s l s', P s → step fx s l = some s' → P s') : ∀ s, Reachable fx s → P s := by
   intro s ⟨tr, htr⟩
-  have : ∀ (tr : List Label) (a b : St), P a → run a tr = some b → P b := by
+  have : ∀ (tr : List Label) (a b : St), P a → run fx a tr = some b → P b := by
     intro tr
     induction tr with
     | nil => intro a b ha h; simp [run] at h; exact h ▸ ha
     | cons l ls ih =>
       intro a b ha h
       simp only [run] at h
-      cases hs : step a l with
+      cases hs : step fx a l with
       | none => simp [hs] at h
       | some a' => rw [hs] at h; exact ih a' b (hstep a l a' ha hs) h
   exact this tr init s h0 htr
